@@ -225,7 +225,8 @@ class Client(threading.Thread):
 
 
 HOSTILE = ['', ' ', '\n', '<script>alert(1)</script>\n', '"</text><script>"\n', '# Legend:\na = {</style>}\n', '\x00\x01\x02', '{a}' * 50, '"' * 101,
-           '日本語 -> *\n', '\r\n\r\n', 'GET / HTTP/1.1\r\n\r\n']
+           '日本語 -> *\n', '\r\n\r\n', 'GET / HTTP/1.1\r\n\r\n', '-' * 20000, 'x' * 5000 + '\n+--+\n', '"' + 'q' * 9000 + '"\n', ' ' * 19999 + '|\n',
+           '\n' * 20000, '# Legend:\n' + 'a = {b}\n' * 2000]
 
 
 def make_plan(rng, ctx, circles, n, heavy):
